@@ -18,6 +18,7 @@ import (
 	"encoding/json"
 	"errors"
 	"fmt"
+	"math"
 	"math/big"
 
 	"github.com/blinklabs-io/gouroboros/cbor"
@@ -735,7 +736,40 @@ func (v *MaryTransactionOutputValue) UnmarshalCBOR(data []byte) error {
 	if _, err := cbor.Decode(data, &tmp); err != nil {
 		return err
 	}
+	if err := validateOutputAssetQuantities(tmp.Assets); err != nil {
+		return err
+	}
 	*v = MaryTransactionOutputValue(tmp)
+	return nil
+}
+
+// maxOutputAssetQuantity is the largest quantity a transaction output may
+// carry (CDDL: multiasset<positive_coin>, positive_coin = 1 .. 2^64-1).
+var maxOutputAssetQuantity = new(big.Int).SetUint64(math.MaxUint64)
+
+// validateOutputAssetQuantities rejects negative and oversized asset
+// quantities in a transaction output value. Zero quantities never get here,
+// they are pruned while decoding the multi-asset map.
+func validateOutputAssetQuantities(
+	assets *common.MultiAsset[common.MultiAssetTypeOutput],
+) error {
+	if assets == nil {
+		return nil
+	}
+	for _, policy := range assets.Policies() {
+		for _, name := range assets.Assets(policy) {
+			qty := assets.Asset(policy, name)
+			if qty == nil {
+				continue
+			}
+			if qty.Sign() < 0 || qty.Cmp(maxOutputAssetQuantity) > 0 {
+				return fmt.Errorf(
+					"transaction output asset quantity out of range (1..2^64-1): policy %x asset %x quantity %s",
+					policy.Bytes(), name, qty.String(),
+				)
+			}
+		}
+	}
 	return nil
 }
 
